@@ -19,13 +19,20 @@ def optRef : Option Ref → String
 
 def sliceBytes (b : Bytes) (r : Ref) : Bytes := b.extract r.off (r.off + r.len)
 
+def optNat : Option Nat → String
+  | some n => toString n
+  | none => "none"
+
+/-- every accessor of `CodeView` the API has (`format`, `age`, `pdb_file_name`, and through the public `image`
+of the variant: `CvSignature`, `Offset` / `TimeDateStamp` of a Cv20, the `Signature` GUID of a Cv70) -/
 def dirsCv (v : View) (cv : CodeView) : String :=
-  let i := cv.image
-  match cv with
-  | .cv20 _ n =>
-    s!"cv20(img={ref i},sig={le32 v.b i.off},off={le32 v.b (i.off + 4)},ts={le32 v.b (i.off + 8)},age={cv.age v.b},fmt={hex (sliceBytes v.b cv.format)},name={ref n})"
-  | .cv70 _ n =>
-    s!"cv70(img={ref i},sig={le32 v.b i.off},guid={hex (sliceBytes v.b ⟨i.off + 4, 16, 1⟩)},age={cv.age v.b},fmt={hex (sliceBytes v.b cv.format)},name={ref n})"
+  let tag := match cv with
+    | .cv20 _ _ => "cv20"
+    | .cv70 _ _ => "cv70"
+  let guid := match cv.guidRef with
+    | some g => s!"{ref g}={hex (sliceBytes v.b g)}"
+    | none => "none"
+  s!"{tag}(img={ref cv.image},sig={cv.cvSignature v.b},off={optNat (cv.offset v.b)},ts={optNat (cv.timestamp v.b)},guid={guid},age={cv.age v.b},fmt={hex (sliceBytes v.b cv.format)},name={ref cv.name})"
 
 def dirsPgoItem (it : PgoItem) : String := s!"{it.rva}:{it.size}:{ref it.name}"
 
@@ -146,7 +153,7 @@ def securityDump (v : View) : String :=
   | o => outStr (fun _ => "") o ++ spec
 
 def dirsLayout : String :=
-  s!"ok tls32={tlsSize .pe32}/{tlsAlign .pe32}:0:4:8:12:16:20 tls64={tlsSize .pe64}/{tlsAlign .pe64}:0:8:16:24:32:36 lc32={lcSize .pe32}/{lcAlign .pe32}:{lcOffCookie .pe32}:{lcOffTable .pe32}:{lcOffCount .pe32} lc64={lcSize .pe64}/{lcAlign .pe64}:{lcOffCookie .pe64}:{lcOffTable .pe64}:{lcOffCount .pe64} dbg=28/4:4:8:12:16:20:24:20413 cv20=16/4:4:8:12 cv70=24/4:4:20 misc=12/4:0:4:8 rf=12/4:0:4:8 uw=4/1:0:1:2:3 uc=2/1 cert=8/4:0:4:6 va32={Fmt.ptrSize .pe32}/4 va64={Fmt.ptrSize .pe64}/8"
+  s!"ok tls32={tlsSize .pe32}/{tlsAlign .pe32}:0:4:8:12:16:20 tls64={tlsSize .pe64}/{tlsAlign .pe64}:0:8:16:24:32:36 lc32={lcSize .pe32}/{lcAlign .pe32}:{lcOffCookie .pe32}:{lcOffTable .pe32}:{lcOffCount .pe32} lc64={lcSize .pe64}/{lcAlign .pe64}:{lcOffCookie .pe64}:{lcOffTable .pe64}:{lcOffCount .pe64} dbg=28/4:4:8:12:16:20:24:20413 cv20=16/4:{cv20OffOffset}:{cv20OffTimeDateStamp}:{cv20OffAge} cv70=24/4:{cv70OffSignature}:{cv70OffAge} misc=12/4:0:4:8 rf=12/4:0:4:8 uw=4/1:0:1:2:3 uc=2/1 cert=8/4:0:4:6 va32={Fmt.ptrSize .pe32}/4 va64={Fmt.ptrSize .pe64}/8"
 
 def dispatchDirs : Handler := fun st fam a =>
   match fam, a with
